@@ -39,6 +39,10 @@ CheckCall(e, c) ==
      ELSE IF \E i \in 1..Len(e.values) : LET x == e.values[i] IN
                x.f > 0 /\ ~e.failedrow[x.r] /\ ~inactive(x.f, x.r) /\ ~ObsEqInt(x.val, Code(0, x.b, RR(x.r), x.p, x.f))
           THEN "reported_value_not_from_labelled_row"
+     \* ... also when that value is "not a number": the evaluator failed realization nanreal (first objective, unperturbed rows)
+     ELSE IF \E i \in 1..Len(e.values) : LET x == e.values[i] IN
+               e.nanreal > 0 /\ x.r = e.nanreal /\ x.p = 0 /\ x.f = 1 /\ ~ObsNaN(x.val)
+          THEN "failed_value_of_labelled_row_not_reported_as_failed"
      \* evaluation_info (function index 0) is routed by the same labels
      ELSE IF \E i \in 1..Len(e.values) : LET x == e.values[i] IN x.f = 0 /\ ~ObsEqInt(x.val, Code(0, x.b, RR(x.r), x.p, 0))
           THEN "evaluation_info_not_from_labelled_row"
